@@ -1,7 +1,15 @@
 package main
 
 import (
+	"bytes"
+	"encoding/json"
+	"fmt"
+	"io"
 	"os"
+	"os/exec"
+	"path/filepath"
+	"strconv"
+	"strings"
 
 	"verifharness/c16"
 	"verifharness/drv"
@@ -12,5 +20,68 @@ func main() {
 		c16.WorkerMain()
 		return
 	}
-	drv.Main("C16", c16.Run)
+	if os.Getenv("C16_CHILD") == "1" {
+		drv.Main("C16", c16.Run)
+		return
+	}
+	// supervisor: the driver runs in a child process. An unrecovered panic in a goroutine of the real code (a
+	// CommitParallel worker) kills that child; the supervisor then writes the run's stats with the oracle failure
+	// C16:process-crash-in-real-code (case, operation in progress, history so far, panic message and stack).
+	exe, err := os.Executable()
+	if err != nil {
+		panic(err)
+	}
+	cmd := exec.Command(exe, os.Args[1:]...)
+	cmd.Env = append(os.Environ(), "C16_CHILD=1")
+	var errBuf bytes.Buffer
+	cmd.Stdout, cmd.Stderr = os.Stdout, io.MultiWriter(os.Stderr, &errBuf)
+	runErr := cmd.Run()
+	if runErr == nil {
+		return
+	}
+	out, seed, tier := "", int64(1), "quick"
+	for i, a := range os.Args {
+		if i+1 < len(os.Args) {
+			switch strings.TrimLeft(a, "-") {
+			case "out":
+				out = os.Args[i+1]
+			case "seed":
+				seed, _ = strconv.ParseInt(os.Args[i+1], 10, 64)
+			case "tier":
+				tier = os.Args[i+1]
+			}
+		}
+	}
+	if out == "" {
+		os.Exit(2)
+	}
+	if _, e := os.Stat(filepath.Join(out, "stats.json")); e == nil {
+		os.Exit(1) // the child finished its run and failed afterwards
+	}
+	var note c16.ProgressNote
+	if bz, e := os.ReadFile(filepath.Join(out, "progress.json")); e == nil {
+		json.Unmarshal(bz, &note)
+	}
+	stderr := errBuf.String()
+	first := stderr
+	if i := strings.Index(first, "\n"); i >= 0 {
+		first = first[:i]
+	}
+	if len(stderr) > 3000 {
+		stderr = stderr[:3000]
+	}
+	st := map[string]any{
+		"seed": seed, "tier": tier, "ops": 0, "cases": 0, "distinct_nontrivial": 0, "histogram": map[string]int{"oracle:C16:process-crash-in-real-code": 1},
+		"oracle_failures": []drv.OracleFailure{{
+			Signature: "C16:process-crash-in-real-code",
+			Desc:      fmt.Sprintf("the driver process died (%v) during %q of case %q: %s", runErr, note.InFlight, note.Case, first),
+			Case:      note.Case,
+			Replay:    map[string]any{"history": note.History, "op_in_progress": note.InFlight, "stderr": stderr},
+		}},
+		"samples": []string{}, "extra": map[string]any{},
+	}
+	bz, _ := json.MarshalIndent(st, "", " ")
+	if e := os.WriteFile(filepath.Join(out, "stats.json"), bz, 0o644); e != nil {
+		panic(e)
+	}
 }
